@@ -39,4 +39,20 @@ let wl_write_initial body = match parse_many body with
       Printf.sprintf "(exists %s) %s" (bool_s (r <> None)) (show (show_amap (read_initial r)))
   | _ -> failwith "wl-write-initial"
 
-let () = run_driver ["wl-va", wl_va; "wl-write-initial", wl_write_initial] []
+(* in: ((A B S)...) (SNAPSHOT-LINE...) (CURRENT-LINE...)
+   out: ((I S)...) lines of CURRENT the first checkpoint gives to a session, then the same by content *)
+let wl_anchor body = match parse_many body with
+  | [cl; snap; cur] ->
+      let cl = List.map (fun c -> match list c with
+          | [a; b; s] -> ((n_of_int (num a), n_of_int (num b)), n_of_int (num s))
+          | _ -> failwith "claim") (list cl) in
+      let snap = List.map (fun x -> n_of_int (num x)) (list snap) in
+      let cur = List.map (fun x -> n_of_int (num x)) (list cur) in
+      let collect f =
+        let rec go i acc = if i > List.length cur then List.rev acc else
+            (match f (n_of_int i) with Some s -> go (i + 1) (L [N i; N (int_of_n s)] :: acc) | None -> go (i + 1) acc) in
+        L (go 1 []) in
+      show (collect (first_checkpoint cl snap cur)) ^ " " ^ show (collect (by_content cl snap cur))
+  | _ -> failwith "wl-anchor"
+
+let () = run_driver ["wl-va", wl_va; "wl-write-initial", wl_write_initial; "wl-anchor", wl_anchor] []
